@@ -347,6 +347,36 @@ PROPS = {
         },
         "assumptions": ["schedules are sampled"],
     },
+    "C15": {
+        "level": "exploration",
+        "variants": {
+            "quick": [("asan", {}), ("rel", {"scale": 30}), ("miri", {"timeout": 1500}), ("vg", {"timeout": 1500})],
+            "thorough": [("asan", {"timeout": 5 * 3600}), ("rel", {"timeout": 3600}), ("miri", {"timeout": 5 * 3600}),
+                         ("vg", {"timeout": 5 * 3600})],
+        },
+        "floors": ["unsafe_extend_match", "unsafe_fast_reject", "unsafe_direct_bits_asm", "unsafe_aligned_alloc",
+                   "direct_bits_accessor_runs", "normalize", "window_move"],
+        "rule": "workload = steering block aimed at the unsafe sites (decode_direct_bits through the accessor hook with "
+                "payloads of 0..65531 bytes ending exactly at the end of the chunk buffer and up to 40 x 26 bits past it; "
+                "LZMA2 chunks with 5-7 compressed bytes declaring up to 70 000 bytes; encoders whose last match sits 0..7 "
+                "bytes before the end of the window, nice_len 8 and 273, preset dictionaries, window moves, lz_pos bias) + "
+                "the C01 encoder cases + the C06 hostile decoder cases, all with the `optimization` feature on, executed "
+                "under AddressSanitizer, under the release build with shadow assertions (the memory precondition of every "
+                "unsafe access restated in safe code), under Miri (asm block skipped through the hook) and under valgrind "
+                "memcheck (which sees the asm loads). A sanitizer/Miri/valgrind report or a failed shadow assertion is the "
+                "violation; functional failures are judged by C01/C06. Evidence lists per tool how often each unsafe site "
+                "executed. Cell = side|component classes; non-trivial = an unsafe site was executed by the case.",
+        "manifest": {
+            "text": "Sanitizer exploration: the real unsafe paths run under ASan, Miri, valgrind and shadow assertions on "
+                    "thousands of encoder inputs and hostile decoder inputs per run; hook counters prove every unsafe site "
+                    "was reached under each tool.",
+            "note": "A clean sanitizer run is not memory safety: red zones miss intra-object errors (covered only where a "
+                    "shadow assertion restates the bound); Miri cannot execute the asm block; aarch64/NEON paths cannot run "
+                    "on this host.",
+            "technique": "sanitizers: AddressSanitizer + Miri + valgrind memcheck + safe-code shadow assertions at unsafe sites",
+        },
+        "assumptions": ["x86-64 host: AVX2/SSE4.1 and the x86-64 asm variant only", "Miri runs with the portable direct-bits loop"],
+    },
     "C16": {
         "level": "exploration",
         "variants": {
@@ -446,7 +476,7 @@ PROPS = {
 def setup(p):
     os.makedirs(p.build, exist_ok=True)
     ok = True
-    for variant in ["rel", "dbg"]:
+    for variant in ["rel", "dbg", "asan", "tsan", "miri"]:
         if vlib.build(p, variant) is None:
             ok = False
     return 0 if ok else 2
